@@ -319,6 +319,67 @@ def case_kfl(**p):
   return case
 
 
+def case_linear(**p):
+  """A freshly built Linear layer (default or named initializer) already satisfies its own constraints."""
+  import tensorflow as tf
+  from tensorflow_lattice.python import linear_layer as LIN
+  from vf.props import c06
+  case = Case(PROP, p['name'], {k: v for k, v in p.items() if k != 'name'})
+  case.encoded(LIN.Linear.__init__, LIN.Linear.build)
+  n, units = len(p['mono']), p['units']
+  kw = dict(num_input_dims=n, units=units, monotonicities=p['mono'], monotonic_dominances=[tuple(t) for t in p.get('mdom', [])] or None,
+            range_dominances=[tuple(t) for t in p.get('rdom', [])] or None, input_min=p.get('imin'), input_max=p.get('imax'),
+            normalization_order=p.get('norm'), use_bias=p.get('bias', True))
+  if p.get('init'):
+    kw['kernel_initializer'] = p['init']
+
+  def mk():
+    layer = LIN.Linear(**kw)
+    return layer
+  layer = mk()
+  captured = {}
+  orig_add = layer.add_weight
+
+  def cap(*a, **k_):
+    if 'kernel' in str(k_.get('name', a[0] if a else '')):
+      captured['init'] = k_.get('initializer')
+    return orig_add(*a, **k_)
+  layer.add_weight = cap
+  shape = [None, n] if units == 1 else [None, units, n]
+  layer.build(tf.TensorShape(shape))
+  init = captured.get('init') or layer.kernel_initializer
+  tr = Traced(lambda: init(shape=[n, units], dtype=tf.float32), [], name='linear-init')
+  sym.new_ctx()
+  (K,) = tr.sym_run()
+  case.meta.update(ops=tr.ops_seen, stubs=sym.ctx().stubs)
+  q = dict(mono=list(p['mono']), mdom=[list(t) for t in p.get('mdom', [])], rdom=[list(t) for t in p.get('rdom', [])],
+           imin=p.get('imin') or [None] * n, imax=p.get('imax') or [None] * n)
+  cons = c06.lin_cons(K, q)
+
+  def _draws(m):
+    fails, worst = 0, 0.0
+    for i in range(100):
+      l2 = mk()
+      l2.build(tf.TensorShape(shape))
+      try:
+        l2.assert_constraints(eps=1e-5)
+      except Exception:  # pylint: disable=broad-except
+        fails += 1
+      if l2.kernel.constraint is not None:
+        worst = max(worst, float(tf.reduce_max(tf.abs(l2.kernel.constraint(l2.kernel) - l2.kernel))))
+    return dict(reproduced=bool(fails or worst > 1e-5), weak=True,
+                detail=dict(fresh_layers=100, assert_constraints_failures=fails, worst_move_by_own_constraint=worst))
+  if cons:
+    case.solve('initial-weights-satisfy-the-configured-constraints', core.any_of(specs.violated(cons)), witness={}, timeout=60,
+               sig=dict(query='lin-init', init=str(p.get('init'))), inline_replay=_draws)
+  tra = Traced(lambda: (layer.assert_constraints(eps=2.0 ** -14), tf.constant(0.0))[1], [], name='Linear.assert_constraints')
+  tra.sym_run(var_values={layer.kernel.ref(): K})
+  passes, _ = c12._passes(tra)
+  case.solve('initial-kernel-passes-assert_constraints', z3.Not(passes), witness={}, timeout=60,
+             sig=dict(query='lin-init-assert', init=str(p.get('init'))), inline_replay=_draws, required=not p.get('norm'))
+  return case
+
+
 def case_categorical(**p):
   import tensorflow as tf
   from tensorflow_lattice.python import categorical_calibration_layer as CL
@@ -483,6 +544,12 @@ def cases(tier, seed):
       add('case_kfl', ls=2, dims=2, units=1, terms=2, mono=mono, omin=omin, omax=omax,
           required=not (omin is not None and omax is not None), timeout=60)
     add('case_kfl', ls=3, dims=2, units=2, terms=1, mono=[0, 1], omin=omin, omax=omax, required=False, timeout=60)
+  add('case_linear', mono=[1, -1], units=1)
+  add('case_linear', mono=[1, 1, 0], units=2, mdom=[[0, 1]], bias=False)
+  add('case_linear', mono=[-1, -1], units=1, rdom=[[0, 1]], imin=[0.0, 0.0], imax=[2.0, 1.0])
+  add('case_linear', mono=[1, 0, 1], units=2, norm=1, bias=False)
+  add('case_linear', mono=[1, 1], units=1, init='ones')
+  add('case_linear', mono=[0, 0], units=1)
   add('case_categorical', n=3, units=2, omin=0.0, omax=1.0, init='uniform')
   add('case_categorical', n=4, units=1, omin=-2.0, omax=-1.0, init='constant')
   add('case_categorical', n=3, units=2, omin=0.0, omax=1.0, init='uniform', pairs=[[0, 1]])
